@@ -1,4 +1,4 @@
-//! C01 / C02 / C03 -- BLOCK and LOOP lemmas on the real `PushState` (thorough tier).
+//! C01 / C02 / C03 -- BLOCK lemma on the real `PushState` (and the abandoned Kani LOOP model, kept for reference).
 //! BLOCK: performing a block unfolds it in order onto the exec stack or is a fatal overflow that leaves
 //! the state unchanged.  LOOP: the real `run_to_completion` with `<PushProgram as
 //! Instruction<PushState>>::perform` replaced (kani stubbing) by a nondeterministic step model that logs
@@ -158,5 +158,5 @@ mod proofs {
             crate::witness!(true, "WITNESS reached");
         }
     )*}; }
-    blocks! { c01_t_block_0 = <0>, 1; c01_t_block_2_fit = <2>, 3; c01_t_block_2_overflow = <2>, 2; c01_t_block_3_fit = <3>, 8; }
+    blocks! { c01_block_0 = <0>, 1; c01_block_2_fit = <2>, 3; c01_block_2_overflow = <2>, 2; c01_block_3_fit = <3>, 8; }
 }
